@@ -1,4 +1,5 @@
 import BigDec.Proofs.Prec
+import BigDec.Proofs.EstCode
 import BigDec.Proofs.Arith
 /-! # C07 — rounding to a precision honours the rounding mode at the p-th digit -/
 namespace BigDec
@@ -52,6 +53,12 @@ theorem C07_addRefs (a b : Dec) (p : Nat) (m : Mode) (r : Dec)
 /-- `with_prec(p)` is the same operation with ties-away-from-zero rounding -/
 theorem C07_withPrec {est : Nat → Nat} (h : EstOK est) (d : Dec) (p : Nat) :
     d.withPrec est p = Spec.roundToPrec d p .HalfUp := withPrec_spec h d p
+
+/-- `with_prec(p)` with the code's own f64 digit estimate (modelled through the rounding primitive of
+    C14), for every decimal below 2^40 bits: no premise about floating point.  (Before the repair of
+    defect F15 this failed for a 146 964 308-bit remainder.) -/
+theorem C07_withPrec_code (d : Dec) (p : Nat) (h : d.int.natAbs.log2 + 1 ≤ 2 ^ 40) :
+    d.withPrec F64.estCode p = Spec.roundToPrec d p .HalfUp := withPrec_code d p h
 
 /-- … and treats a value and its negation symmetrically -/
 theorem C07_withPrec_neg {est : Nat → Nat} (h : EstOK est) (d : Dec) (p : Nat) :
